@@ -24,7 +24,7 @@ pub struct GenCfg {
 
 impl Default for GenCfg {
     fn default() -> Self {
-        GenCfg { max_vertices: 4, max_depth: 3, recurse_depths: vec![1, 2], wide_filters: false, naming_devs: true }
+        GenCfg { max_vertices: 4, max_depth: 3, recurse_depths: vec![1, 2, 3], wide_filters: false, naming_devs: true }
     }
 }
 
